@@ -65,7 +65,8 @@ func genHistory(r *rng.R, nops int, exhaustiveSmall bool) thCase {
 	slots := []*uint256.Int{u256(0), u256(1), u256(5), u256(7),
 		new(uint256.Int).SetBytes(common.FromHex("0xb10e2d527612073b26eecdfd717e6a320cf44b4afac2b0732d9fcbe2b7fa0cf6"))}
 	big200 := new(uint256.Int).Lsh(u256(1), 200)
-	offs := []*uint256.Int{nil, u256(0), u256(1), u256(16), u256(31), u256(32), new(uint256.Int).Lsh(u256(1), 64), big200}
+	offs := []*uint256.Int{nil, u256(0), u256(1), u256(16), u256(31), u256(32), new(uint256.Int).Lsh(u256(1), 64), big200,
+		u256(255), u256(256), u256(257), u256(256 + 16), u256(1<<32 + 1), u256(1<<63 + 31)}
 	goodOffs := []*uint256.Int{nil, u256(0), u256(1), u256(16), u256(31)}
 	types := []common.Hash{common.HexToHash("0x0a"), common.HexToHash("0x0b"), common.HexToHash("0xc0000000000000000000000000000000000000000000000000000000000000cc")}
 	names := [][]byte{[]byte("a"), []byte("b"), []byte("balance"), {}}
